@@ -62,3 +62,8 @@ Fixpoint run_actions (r : qreg Fl) (acts : list action) : list rec :=
   end.
 
 Definition run_reg (acts : list action) : list rec := run_actions (reg_new Fops 0) acts.
+
+(** `sampler` engine: index selected by WeightedIndex for the uniform draw [chosen] *)
+From QV Require Import Sampler.
+Definition run_wsample (w : list Fl) (chosen : Fl) : option nat :=
+  if weights_ok Fops w then Some (sample Fops w chosen) else None.
